@@ -28,6 +28,9 @@ def cfg_layers(tier, adversarial=("cnf",), extra_quick=(), extra_thorough=()):
         for sch in adversarial:
             ls.append(Layer("CFG(2,2,2,<=2)/names:" + sch, lambda: G.cfg_cases(2, 2, 2, 0, 2), rep=None,
                             policies=["natural@" + sch, "1@" + sch]))
+        if "cnf" in adversarial:
+            ls.append(Layer("CFG(3,1,3,<=2)/names:cnf2", lambda: G.cfg_cases(3, 1, 3, 0, 2), rep=None,
+                            policies=["natural@cnf2"]))
         return ls + list(extra_quick)
     few = ["natural@plain", "1@plain", "2@plain"]
     ls = [Layer("CFG(2,2,2,<=3)", lambda: G.cfg_cases(2, 2, 2, 0, 3), rep=None),
@@ -38,6 +41,9 @@ def cfg_layers(tier, adversarial=("cnf",), extra_quick=(), extra_thorough=()):
     for sch in adversarial:
         ls.append(Layer("CFG(2,2,2,<=3)/names:" + sch, lambda: G.cfg_cases(2, 2, 2, 0, 3), rep=None,
                         policies=["natural@" + sch, "1@" + sch]))
+    if "cnf" in adversarial:
+        ls.append(Layer("CFG(3,1,3,<=2)/names:cnf2", lambda: G.cfg_cases(3, 1, 3, 0, 2), rep=None,
+                        policies=["natural@cnf2", "1@cnf2"]))
     return ls + list(extra_thorough)
 
 
